@@ -2,6 +2,7 @@ package sd
 
 import (
 	"fmt"
+	"strings"
 	"sync"
 	"time"
 
@@ -19,8 +20,9 @@ import (
 // invocation for event number b does not return until a LATER invocation of the same listener
 // has begun or 150 ms have passed. With a broker that serialises a listener the wait always
 // times out; with one goroutine per event the later invocation begins at once.
-// Output: ser=<0|1> (no two invocations of one listener overlapped) ord=<0|1> (each listener
-// saw its events in emit order) n=<number of invocations>.
+// Output: ser=<0|1> (no two invocations of one listener overlapped), s=<event numbers the stored
+// listener was invoked with, in order>, d=<the same for the deleted listener>: by
+// delivery_is_emit_order each must be exactly the emitted sequence of its broker.
 
 // GenSched emits the schedule cases.
 func GenSched(g *vh.Gen) {
@@ -89,15 +91,141 @@ func ExecSched(in []string) []string {
 	}
 	mu.Lock()
 	defer mu.Unlock()
-	ordered := true
-	count := 0
-	for _, s := range seen {
-		count += len(s)
-		for i := 1; i < len(s); i++ {
-			if s[i] < s[i-1] {
-				ordered = false
+	seq := func(l int) string {
+		if len(seen[l]) == 0 {
+			return "-"
+		}
+		p := make([]string, len(seen[l]))
+		for i, n := range seen[l] {
+			p[i] = vh.I(n)
+		}
+		return strings.Join(p, ",")
+	}
+	return []string{"ser=" + vh.B(serial), "s=" + seq(0), "d=" + seq(1)}
+}
+
+// sched2 <groups> <blocks>: events are emitted in bursts on the AfterMessageStored broker
+// (groups = burst sizes, e.g. 1,2,2); the listener's invocation for every event number in
+// <blocks> does not return until the emitter releases it. After every burst but the first the
+// emitter releases the invocation that is currently held and waits until the listener is held
+// again or has caught up. So bursts arrive while the listener is busy and while earlier bursts
+// are still queued. Output as for sched: ser=…, s=<event numbers in invocation order>.
+func GenSched2(g *vh.Gen) {
+	cases := [][2]string{{"1,2,2", "0,1"}, {"1,3,2", "0,1"}, {"2,2,3", "1,2"}, {"1,2,2,2", "0,1,3"}, {"1,4,4", "0,2"}, {"3,3", "0"}}
+	for _, c := range cases {
+		g.Emit("sched2", c[0], c[1])
+	}
+	for i := 0; i < g.N(6, 300); i++ {
+		ng := 2 + g.Intn(3)
+		gs := make([]string, ng)
+		total := 0
+		for j := range gs {
+			k := 1 + g.Intn(4)
+			gs[j] = vh.I(k)
+			total += k
+		}
+		bl := []string{"0"}
+		for e := 1; e < total-1; e++ {
+			if g.Chance(0.35) {
+				bl = append(bl, vh.I(e))
 			}
 		}
+		g.Emit("sched2", strings.Join(gs, ","), strings.Join(bl, ","))
 	}
-	return []string{"ser=" + vh.B(serial), "ord=" + vh.B(ordered), "n=" + vh.I(count)}
+}
+
+// ExecSched2 runs one burst schedule.
+func ExecSched2(in []string) []string {
+	blocks := map[int]bool{}
+	for _, b := range strings.Split(in[1], ",") {
+		blocks[vh.AtoI(b)] = true
+	}
+	h := extension.NewHost()
+	var mu sync.Mutex
+	cond := sync.NewCond(&mu)
+	var seen []int
+	inside := 0
+	serial := true
+	held := false
+	var release chan struct{}
+	h.Events.AfterMessageStored.AddListener("verif", func(m event.MessageMetadata) {
+		num := int(m.Size)
+		mu.Lock()
+		inside++
+		if inside > 1 {
+			serial = false
+		}
+		seen = append(seen, num)
+		var ch chan struct{}
+		if blocks[num] {
+			ch = make(chan struct{})
+			release = ch
+			held = true
+		}
+		cond.Broadcast()
+		mu.Unlock()
+		if ch != nil {
+			<-ch
+		}
+		mu.Lock()
+		inside--
+		cond.Broadcast()
+		mu.Unlock()
+	})
+	emitted := 0
+	waitSettled := func() {
+		deadline := time.Now().Add(2 * time.Second)
+		mu.Lock()
+		defer mu.Unlock()
+		for !(held || (len(seen) >= emitted && inside == 0)) {
+			left := time.Until(deadline)
+			if left <= 0 {
+				return
+			}
+			t := time.AfterFunc(left, func() { mu.Lock(); cond.Broadcast(); mu.Unlock() })
+			cond.Wait()
+			t.Stop()
+		}
+	}
+	for gi, gs := range strings.Split(in[0], ",") {
+		for k := 0; k < vh.AtoI(gs); k++ {
+			ev := event.MessageMetadata{Mailbox: "m", ID: fmt.Sprint(emitted), Size: int64(emitted)}
+			h.Events.AfterMessageStored.Emit(&ev)
+			emitted++
+		}
+		if gi > 0 {
+			mu.Lock()
+			if held {
+				held = false
+				close(release)
+			}
+			mu.Unlock()
+		}
+		waitSettled()
+	}
+	// release everything that is still held, to the end
+	for i := 0; i < 200; i++ {
+		mu.Lock()
+		if held {
+			held = false
+			close(release)
+		}
+		fin := len(seen) >= emitted && inside == 0
+		mu.Unlock()
+		if fin {
+			break
+		}
+		time.Sleep(5 * time.Millisecond)
+	}
+	mu.Lock()
+	defer mu.Unlock()
+	p := make([]string, len(seen))
+	for i, n := range seen {
+		p[i] = vh.I(n)
+	}
+	s := strings.Join(p, ",")
+	if s == "" {
+		s = "-"
+	}
+	return []string{"ser=" + vh.B(serial), "s=" + s}
 }
